@@ -26,4 +26,9 @@ for h in _load("C04").rt_harnesses(only=["wav.pcm16"]):
         HARNESSES.append(g)
 # H4: setting metadata too late is refused (have_written latch of every write entry point) - C05 wrappers
 HARNESSES += [h for h in _load("C05").HARNESSES if h.name.startswith("wrap.write") and ".ch1" in h.name]
+# H5: WAVEX/RF64 channel map <-> channel mask
+for nch in (1, 2, 3):
+    HARNESSES.append(H("chanmask.ch%d" % nch, "C12/chanmask.c", link=["common"], stubs=["psf_log_printf"], defines={"NCH": nch, "MF_CAP": 16}, unwind=20, checks="mem",
+                       include_env=("log_stub", "memfile"), timeout=300, functions=["wavlike_gen_channel_mask", "channel_mask_bits[]"],
+                       bounds="every channel map of %d channel(s), entries 0..SF_CHANNEL_MAP_MAX" % nch))
 META = {"assumptions": ["E-memfile"], "outside": ["strings, bext, cart, channel map round trips; AIFF/CAF/RF64 metadata (see DESIGN)"]}
